@@ -169,6 +169,49 @@ func checkC04(p *Program, r *Result) {
 			r.undecided("C04.a", fname, "window predicate", "", "function not found")
 			continue
 		}
+		// the record walk of the index-based iterator may live in an unexported helper method of loadChunk: judge the
+		// method (of the same type) that appends to the queue
+		if site.meth == "loadChunk" {
+			appends := func(d *ast.FuncDecl) bool {
+				found := false
+				ast.Inspect(d.Body, func(n ast.Node) bool {
+					if as, ok := n.(*ast.AssignStmt); ok && len(as.Lhs) == 1 && len(as.Rhs) == 1 && strings.HasSuffix(types.ExprString(as.Lhs[0]), "."+p.roles().qField) {
+						if ce, ok := as.Rhs[0].(*ast.CallExpr); ok && g.isBuiltin(ce, "append") {
+							found = true
+						}
+					}
+					return true
+				})
+				return found
+			}
+			if !appends(fd) {
+				frontier := []*ast.FuncDecl{fd}
+				seenD := map[*ast.FuncDecl]bool{fd: true}
+				for depth := 0; depth < 3 && len(frontier) > 0; depth++ {
+					var next []*ast.FuncDecl
+					for _, d := range frontier {
+						ast.Inspect(d.Body, func(n ast.Node) bool {
+							if ce, ok := n.(*ast.CallExpr); ok {
+								if fn := g.calleeOf(ce); fn != nil && !fn.Exported() {
+									if hd := g.decls[fn]; hd != nil && hd.Body != nil && hd.Recv != nil && !seenD[hd] && recvTypeName(g, hd) == site.typ {
+										seenD[hd] = true
+										next = append(next, hd)
+									}
+								}
+							}
+							return true
+						})
+					}
+					for _, hd := range next {
+						if appends(hd) && !appends(fd) {
+							fd = hd
+							fname = "mcap." + site.typ + "." + hd.Name.Name
+						}
+					}
+					frontier = next
+				}
+			}
+		}
 		// the statements that yield a message: the return of a non-nil message with a nil error (sequential), the append
 		// to the message index queue (index-based); their path condition, restricted to the conjuncts that mention the
 		// log time, is the window predicate - whatever mix of nested ifs and early-exit guards expresses it
